@@ -1,4 +1,5 @@
 import MJ.Proofs.Store
+import MJ.Gen.Tables
 /-!
 # C15 — an environment's behaviour depends on its contents, not on its history
 
@@ -7,8 +8,13 @@ Property theorems only (helper lemmas live in `MJ/Proofs/Store.lean`).
 * `Store` is the model of `LoaderStore` (borrowed map + memoising owned map, a loader, mutual
   eviction on insert — after the `fix:` commit the new source is compiled *before* the other tier is
   evicted); `compiles : Source → Bool` is a parameter.
-* `Spec` = a plain map `explicit : Name ⇀ Source` + a memo cache `cached : Name ⇀ Source`;
-  `Flat` = their union `contents` (what a lookup answers from without asking the loader).
+* a compiled template is `Tmpl = (source, load-time configuration it was compiled under)`; the
+  store carries the current load-time configuration `cfg` (trim_blocks, lstrip_blocks,
+  keep_trailing_newline, syntax, auto-escape callback) which applies to FUTURE loads only
+  (`add_template*` is a load; a loader-backed template is loaded at its first lookup);
+* `Spec` = a plain map `explicit : Name ⇀ Tmpl` + a memo cache `cached : Name ⇀ Tmpl`;
+  `Flat` = their union `contents` (what a lookup answers from without asking the loader);
+* `EnvSpec` = one environment as a value: `Flat` + run-time configuration + three registries.
 * `Cow`/`World` model an environment and its clones: stores are copied by value
   (`MemoMap: Clone`, `BTreeMap: Clone`), the three registries are `Arc`s mutated through
   `Arc::make_mut`.
@@ -20,59 +26,72 @@ harness validates them (concurrent renders vs. a fresh environment), it does not
 namespace MJ.C15
 open MJ.Store
 
-/-- Full-strength statement of the modelled (sequential) part of C15, for every compile predicate:
-* (history) two arbitrary histories from the empty store that end with the same contents and the
-  same loader are indistinguishable by any continuation (every later lookup, addition, … returns
-  the same);
+/-- Full-strength statement of the modelled (sequential) part of C15, for every compile predicate
+(compiling may depend on the load-time configuration, e.g. the syntax):
+* (history) two arbitrary histories from the empty store that end with the same contents — per name
+  the source AND the load-time configuration of its last load —, the same loader and the same
+  configuration for future loads are indistinguishable by any continuation;
 * (failed insert) an addition whose source does not compile returns the compile error and leaves the
   store *identical*;
-* (sticky) once a lookup of `n` has found a source — in particular one obtained from the loader —
-  every later lookup of `n` finds the same source, whatever happens in between (including
-  `set_loader` to a loader that answers differently), unless `n` is removed, re-added or the
-  templates are cleared. -/
+* (sticky) once a lookup of `n` has found a template — in particular one obtained from the loader —
+  every later lookup of `n` finds the same template (same source, same load-time configuration),
+  whatever happens in between (including `set_loader` and configuration changes), unless `n` is
+  removed, re-added or the templates are cleared;
+* (reload) re-adding a template — also with byte-identical source — is a load: afterwards the
+  template is the one compiled under the configuration in force NOW. -/
 def C15_full : Prop :=
-  ∀ c : Source → Bool,
+  ∀ c : LtCfg → Source → Bool,
     (∀ h₁ h₂ k : List Op,
         (Store.empty.run c h₁).flat = (Store.empty.run c h₂).flat →
         (Store.empty.run c h₁).results c k = (Store.empty.run c h₂).results c k) ∧
-    (∀ (s : Store) (n : Name) (src : Source), c src = false →
+    (∀ (s : Store) (n : Name) (src : Source), c s.cfg src = false →
         s.step c (.addBorrowed n src) = (s, .compileError) ∧
         s.step c (.addOwned n src) = (s, .compileError)) ∧
-    (∀ (s : Store) (n : Name) (src : Source) (k : List Op),
-        (s.step c (.get n)).2 = .found src → (∀ op ∈ k, op.evicts n = false) →
-        (((s.step c (.get n)).1.run c k).step c (.get n)).2 = .found src)
+    (∀ (s : Store) (n : Name) (t : Tmpl) (k : List Op),
+        (s.step c (.get n)).2 = .found t → (∀ op ∈ k, op.evicts n = false) →
+        (((s.step c (.get n)).1.run c k).step c (.get n)).2 = .found t) ∧
+    (∀ (s : Store) (n : Name) (src : Source), c s.cfg src = true →
+        ((s.step c (.addBorrowed n src)).1.get c n).2 = .found (src, s.cfg) ∧
+        ((s.step c (.addOwned n src)).1.get c n).2 = .found (src, s.cfg))
 
 /-! ## the store refines a plain map plus a memo cache -/
 
 /-- every operation commutes with the abstraction and returns the specification's answer -/
-theorem store_refines_map (c : Source → Bool) (s : Store) (op : Op) :
+theorem store_refines_map (c : LtCfg → Source → Bool) (s : Store) (op : Op) :
     (s.step c op).2 = (s.abs.step c op).2 ∧ (s.step c op).1.abs = (s.abs.step c op).1 :=
   step_refines c s op
 
-example : -- a state with both tiers occupied and a loader; a lookup that memoises
-    let c : Source → Bool := fun s => s != 8
-    let s : Store := { loader := some (fun n => if n = 2 then .src 5 else .missing),
-                       borrowed := [(0, 1)], owned := [(1, (3, .explicit))] }
-    (s.step c (.get 2)).2 = .found 5 ∧ (s.step c (.get 2)).1.abs.cached 2 = some 5 ∧
-    (s.step c (.get 2)).1.abs.explicit 0 = some 1 ∧ (s.step c (.get 2)).1.abs.explicit 1 = some 3 := by
+def cfgA : LtCfg := LtCfg.default
+def cfgB : LtCfg := { LtCfg.default with trim := true, autoEscape := 1 }
+
+example : -- a state with both tiers occupied and a loader; a lookup that memoises under the CURRENT cfg
+    let c : LtCfg → Source → Bool := fun _ s => s != 8
+    let s : Store := { loader := some (fun n => if n = 2 then .src 5 else .missing), cfg := cfgB,
+                       borrowed := [(0, (1, cfgA))], owned := [(1, ((3, cfgA), .explicit))] }
+    (s.step c (.get 2)).2 = .found (5, cfgB) ∧ (s.step c (.get 2)).1.abs.cached 2 = some (5, cfgB) ∧
+    (s.step c (.get 2)).1.abs.explicit 0 = some (1, cfgA) ∧
+    (s.step c (.get 2)).1.abs.explicit 1 = some (3, cfgA) := by
   decide
 
 /-- the explicit/cached distinction is a ghost: operations are determined by the union -/
-theorem spec_refines_contents (c : Source → Bool) (sp : Spec) (op : Op) :
+theorem spec_refines_contents (c : LtCfg → Source → Bool) (sp : Spec) (op : Op) :
     (sp.step c op).2 = (sp.flat.step c op).2 ∧ (sp.step c op).1.flat = (sp.flat.step c op).1 :=
   spec_step_refines c sp op
 
-/-- Two stores with the same contents and the same loader give the same results for every
+/-- Two stores with the same contents (source and load-time configuration per name), the same
+    loader and the same configuration for future loads give the same results for every
     continuation — in whatever tiers the templates sit, and whatever ghost tags they carry. -/
-theorem results_depend_on_contents_only (c : Source → Bool) (s₁ s₂ : Store)
+theorem results_depend_on_contents_only (c : LtCfg → Source → Bool) (s₁ s₂ : Store)
     (h : s₁.flat = s₂.flat) (k : List Op) : s₁.results c k = s₂.results c k := by
   rw [results_flat, results_flat, h]
 
 example : -- the same contents held in different tiers (and reached differently)
-    let s₁ : Store := { loader := none, borrowed := [(0, 1)], owned := [(1, (2, .loaded))] }
-    let s₂ : Store := { loader := none, borrowed := [], owned := [(1, (2, .explicit)), (0, (1, .explicit))] }
+    let s₁ : Store := { loader := none, cfg := cfgB, borrowed := [(0, (1, cfgA))], owned := [(1, ((2, cfgB), .loaded))] }
+    let s₂ : Store := { loader := none, cfg := cfgB, borrowed := [],
+                        owned := [(1, ((2, cfgB), .explicit)), (0, ((1, cfgA), .explicit))] }
     s₁.flat = s₂.flat := by
   apply Flat.ext'
+  · rfl
   · rfl
   · intro m
     match m with
@@ -80,79 +99,131 @@ example : -- the same contents held in different tiers (and reached differently)
     | 1 => rfl
     | (m + 2) => rfl
 
-/-- History independence, for ANY two histories: if they lead to the same contents (and loader),
-    every continuation behaves the same. -/
-theorem history_independent (c : Source → Bool) (h₁ h₂ k : List Op)
+/-- History independence, for ANY two histories: if they lead to the same contents (per template:
+    source and load-time configuration at its last load), loader and current load-time
+    configuration, every continuation behaves the same. -/
+theorem history_independent (c : LtCfg → Source → Bool) (h₁ h₂ k : List Op)
     (h : (Store.empty.run c h₁).flat = (Store.empty.run c h₂).flat) :
     (Store.empty.run c h₁).results c k = (Store.empty.run c h₂).results c k :=
   results_depend_on_contents_only c _ _ h k
 
-example : -- two different histories with the same final contents
-    let c : Source → Bool := fun s => s != 8
-    (Store.empty.run c [.addOwned 0 3, .addBorrowed 0 8, .addBorrowed 1 4, .remove 1, .addBorrowed 0 2]).flat
-      = (Store.empty.run c [.addBorrowed 0 2]).flat := by
+example : -- two different histories with the same final contents: the reference environment is built
+          -- by replaying, per template, the configuration in force at its last load
+    let c : LtCfg → Source → Bool := fun _ s => s != 8
+    (Store.empty.run c [.addOwned 0 3, .setCfg cfgB, .addBorrowed 0 8, .addBorrowed 1 4, .remove 1,
+                        .addOwned 0 3, .setCfg cfgA, .addBorrowed 2 5]).flat
+      = (Store.empty.run c [.addBorrowed 2 5, .setCfg cfgB, .addBorrowed 0 3, .setCfg cfgA]).flat := by
   apply Flat.ext'
+  · rfl
   · rfl
   · intro m
     match m with
     | 0 => rfl
     | 1 => rfl
-    | (m + 2) => rfl
+    | 2 => rfl
+    | (m + 3) => rfl
 
 /-- the final contents are a function of the history of the *specification*: running the store and
     abstracting equals running the plain map -/
-theorem run_refines (c : Source → Bool) (s : Store) (k : List Op) :
+theorem run_refines (c : LtCfg → Source → Bool) (s : Store) (k : List Op) :
     (s.run c k).flat = s.flat.run c k :=
   run_flat c k s
 
-/-! ## failed insert -/
+/-! ## failed insert, failed lookup -/
 
 /-- an addition whose source fails to compile leaves the store as it was (the state itself, not
     only its abstraction) and reports the compile error -/
-theorem failed_insert_noop (c : Source → Bool) (s : Store) (n : Name) (src : Source)
-    (h : c src = false) :
+theorem failed_insert_noop (c : LtCfg → Source → Bool) (s : Store) (n : Name) (src : Source)
+    (h : c s.cfg src = false) :
     s.step c (.addBorrowed n src) = (s, .compileError) ∧
     s.step c (.addOwned n src) = (s, .compileError) := by
   simp [Store.step, h]
 
-example : (fun s : Source => s != 8) 8 = false := by decide
+example : (fun (_ : LtCfg) (s : Source) => s != 8) cfgA 8 = false := by decide
 
 /-- What the defect was: with `insert_cow` as in the pinned tree (evict the other tier, then
     compile), a failing `add_template` over an owned template removed it. -/
 theorem pinned_insert_was_not_a_noop :
-    ∃ (c : Source → Bool) (s : Store) (n : Name) (src : Source), c src = false ∧
-      (s.get c n).2 = .found 2 ∧ ((s.stepPinned c (.addBorrowed n src)).1.get c n).2 = .notFound := by
-  refine ⟨fun s => s != 8, { loader := none, borrowed := [], owned := [(0, (2, .explicit))] }, 0, 8, ?_⟩
+    ∃ (c : LtCfg → Source → Bool) (s : Store) (n : Name) (src : Source), c s.cfg src = false ∧
+      (s.get c n).2 = .found (2, cfgA) ∧ ((s.stepPinned c (.addBorrowed n src)).1.get c n).2 = .notFound := by
+  refine ⟨fun _ s => s != 8, { loader := none, cfg := cfgA, borrowed := [], owned := [(0, ((2, cfgA), .explicit))] }, 0, 8, ?_⟩
   decide
 
-/-! ## stickiness -/
+/-- A lookup that does not find a template (loader says missing, loader fails, the loaded source
+    does not compile) leaves the store identical: failures are never memoised, the next lookup asks
+    the loader again. -/
+theorem failed_lookup_not_cached (c : LtCfg → Source → Bool) (s : Store) (n : Name)
+    (h : ∀ t, (s.get c n).2 ≠ .found t) : (s.get c n).1 = s :=
+  get_failure_not_cached c s n h
 
-/-- A template that a lookup has found keeps that source — for a loader-backed template: the source
-    it had when first requested — across any operations that do not remove, re-add or clear it. -/
-theorem cached_source_sticky (c : Source → Bool) (s : Store) (n : Name) (src : Source)
-    (k : List Op) (h : (s.step c (.get n)).2 = .found src)
+example : -- the loader fails, then is replaced by one that works: the failure left nothing behind
+    let c : LtCfg → Source → Bool := fun _ s => s != 8
+    let s : Store := { loader := some (fun _ => .err), cfg := cfgA, borrowed := [], owned := [] }
+    (s.get c 0).2 = .loaderError ∧
+    (((s.get c 0).1.step c (.setLoader (fun _ => .src 8))).1.get c 0).2 = .compileError ∧
+    ((((s.get c 0).1.step c (.setLoader (fun _ => .src 8))).1.get c 0).1.step c (.setLoader (fun _ => .src 4))).1.get c 0
+      = ({ loader := some (fun _ => .src 4), cfg := cfgA, borrowed := [], owned := [(0, ((4, cfgA), .loaded))] }, .found (4, cfgA)) := by
+  refine ⟨by decide, by decide, ?_⟩
+  rfl
+
+/-! ## stickiness and re-loading -/
+
+/-- A template that a lookup has found keeps that source and compilation — for a loader-backed
+    template: the ones it had when first requested — across any operations that do not remove,
+    re-add or clear it (in particular across `set_loader` and every configuration change). -/
+theorem cached_source_sticky (c : LtCfg → Source → Bool) (s : Store) (n : Name) (t : Tmpl)
+    (k : List Op) (h : (s.step c (.get n)).2 = .found t)
     (hk : ∀ op ∈ k, op.evicts n = false) :
-    (((s.step c (.get n)).1.run c k).step c (.get n)).2 = .found src := by
+    (((s.step c (.get n)).1.run c k).step c (.get n)).2 = .found t := by
   obtain ⟨h1, h2⟩ := store_step_flat c s (.get n)
-  have hc : (s.step c (.get n)).1.flat.contents n = some src := by
-    rw [h2]; exact flat_get_found c s.flat n src (h1 ▸ h)
-  have hr := flat_run_keeps c k n src _ hc hk
+  have hc : (s.step c (.get n)).1.flat.contents n = some t := by
+    rw [h2]; exact flat_get_found c s.flat n t (h1 ▸ h)
+  have hr := flat_run_keeps c k n t _ hc hk
   rw [← run_flat] at hr
   rw [(store_step_flat c _ (.get n)).1]
-  exact flat_get_of_contents c _ n src hr
+  exact flat_get_of_contents c _ n t hr
 
-example : -- loaded from loader 1, kept although the loader is replaced by one that answers differently
-    let c : Source → Bool := fun _ => true
+example : -- loaded from loader 1 under cfgA, kept although loader and configuration are replaced
+    let c : LtCfg → Source → Bool := fun _ _ => true
     let l₁ : Name → LoadRes := fun _ => .src 1
     let l₂ : Name → LoadRes := fun _ => .src 2
-    let s : Store := { loader := some l₁, borrowed := [], owned := [] }
-    (s.step c (.get 0)).2 = .found 1 ∧
-    (((s.step c (.get 0)).1.run c [.setLoader l₂, .get 1, .addOwned 1 7]).step c (.get 0)).2 = .found 1 ∧
-    (((s.step c (.get 0)).1.run c [.setLoader l₂, .clear]).step c (.get 0)).2 = .found 2 := by
+    let s : Store := { loader := some l₁, cfg := cfgA, borrowed := [], owned := [] }
+    (s.step c (.get 0)).2 = .found (1, cfgA) ∧
+    (((s.step c (.get 0)).1.run c [.setLoader l₂, .setCfg cfgB, .get 1, .addOwned 1 7]).step c (.get 0)).2 = .found (1, cfgA) ∧
+    (((s.step c (.get 0)).1.run c [.setLoader l₂, .setCfg cfgB, .clear]).step c (.get 0)).2 = .found (2, cfgB) := by
+  decide
+
+/-- Adding a template is a load: whatever was stored under the name before — even a template with
+    the very same source, in either tier, explicit or memoised from the loader — the name now
+    denotes the source compiled under the configuration in force at the time of the addition. -/
+theorem readd_is_a_load (c : LtCfg → Source → Bool) (s : Store) (n : Name) (src : Source)
+    (h : c s.cfg src = true) :
+    ((s.step c (.addBorrowed n src)).1.get c n).2 = .found (src, s.cfg) ∧
+    ((s.step c (.addOwned n src)).1.get c n).2 = .found (src, s.cfg) := by
+  constructor
+  · simp [Store.step, h, Store.get, find_ins_self]
+  · simp [Store.step, h, Store.get, find_ins_self, find_del_self]
+
+example : -- the seeded change C15-3 ("skip recompiling an unchanged source") contradicts this:
+          -- same name, same source, configuration changed in between
+    let c : LtCfg → Source → Bool := fun _ _ => true
+    let s := Store.empty.run c [.addOwned 0 3, .setCfg cfgB]
+    (s.get c 0).2 = .found (3, cfgA) ∧ ((s.step c (.addOwned 0 3)).1.get c 0).2 = .found (3, cfgB) := by
   decide
 
 theorem C15_holds : C15_full := fun c =>
-  ⟨history_independent c, failed_insert_noop c, cached_source_sticky c⟩
+  ⟨history_independent c, failed_insert_noop c, cached_source_sticky c, readd_is_a_load c⟩
+
+/-! ## `templates()` -/
+
+/-- In every state reachable from an empty store the two tiers hold disjoint sets of names without
+    repetition: `Environment::templates()` lists every name exactly once. -/
+theorem templates_lists_each_name_once (c : LtCfg → Source → Bool) (k : List Op) :
+    (((Store.empty.run c k).iter).map (·.1)).Nodup :=
+  Store.iter_names_nodup _ (Store.run_inv c k _ Store.empty_inv)
+
+example : ((Store.empty.run (fun _ _ => true) [.addOwned 0 3, .addBorrowed 0 4, .addOwned 1 3]).iter).map (·.1) = [0, 1] := by
+  decide
 
 /-! ## registries and clones -/
 
@@ -177,10 +248,10 @@ example : -- two handles sharing one allocation: the write goes to a copy
   decide
 
 /-- the invariant the isolation theorems need holds initially and is preserved by every step -/
-theorem world_wf (c : Source → Bool) (f t g : Registry) (k : List WOp) :
+theorem world_wf (c : LtCfg → Source → Bool) (f t g : Registry) (k : List WOp) :
     ((World.init f t g).run c k).WF := by
   have h0 : (World.init f t g).WF := by
-    refine ⟨?_, ?_, ?_, rfl, rfl, rfl⟩ <;> (intro a ha; simp [World.init] at ha; subst ha; simp [World.init])
+    refine ⟨?_, ?_, ?_, rfl, rfl, rfl, rfl⟩ <;> (intro a ha; simp [World.init] at ha; subst ha; simp [World.init])
   generalize World.init f t g = w at h0
   induction k generalizing w with
   | nil => exact h0
@@ -188,8 +259,9 @@ theorem world_wf (c : Source → Bool) (f t g : Registry) (k : List WOp) :
 
 /-- An environment is unaffected by anything done to other environments (its clones, or the
     original it was cloned from): for every sequence of operations none of which targets
-    environment `j`, environment `j` looks exactly as before — store abstraction and registries. -/
-theorem clone_isolated (c : Source → Bool) (w : World) (hw : w.WF) (k : List WOp) (j : Nat)
+    environment `j`, environment `j` looks exactly as before — store abstraction, run-time
+    configuration and registries. -/
+theorem clone_isolated (c : LtCfg → Source → Bool) (w : World) (hw : w.WF) (k : List WOp) (j : Nat)
     (hj : j < w.stores.length) (hk : ∀ op ∈ k, op.target ≠ j) :
     (w.run c k).view j = w.view j := by
   induction k generalizing w with
@@ -201,43 +273,46 @@ theorem clone_isolated (c : Source → Bool) (w : World) (hw : w.WF) (k : List W
           (fun o ho => hk o (by simp [ho]))]
     exact World.step_view_other c w op hw j hj (hk op (by simp))
 
-/-- … and the clone starts out indistinguishable from the original -/
-theorem clone_starts_equal (c : Source → Bool) (w : World) (hw : w.WF) (e : Nat)
+/-- … and the clone starts out indistinguishable from the original (templates with their
+    compilations, both configurations, registries) -/
+theorem clone_starts_equal (c : LtCfg → Source → Bool) (w : World) (hw : w.WF) (e : Nat)
     (he : e < w.stores.length) : (w.step c (.clone e)).1.view w.stores.length = w.view e :=
   World.clone_view_new c w e hw he
 
-/-- an operation on environment `e` acts on `e`'s own view like the specification: store
-    operations as `Spec.step`, registry operations as map update -/
-theorem world_step_refines (c : Source → Bool) (w : World) (hw : w.WF) (e : Nat) (s : Store)
-    (hs : w.stores[e]? = some s) :
-    (∀ op, ((w.step c (.store e op)).1.view e).map (·.store) = some (s.abs.step c op).1 ∧
-           (w.step c (.store e op)).2 = (s.abs.step c op).2) ∧
-    (∀ name v, ((w.step c (.regAdd .filter e name v)).1.view e).map (·.filters)
-        = some (upd (regView w.filters e) name (some v))) ∧
-    (∀ name, ((w.step c (.regRemove .filter e name)).1.view e).map (·.filters)
-        = some (upd (regView w.filters e) name none)) := by
-  have he : e < w.stores.length := (List.getElem?_eq_some_iff.mp hs).1
-  obtain ⟨h1, _, _, h4, _, _⟩ := hw
-  refine ⟨?_, ?_, ?_⟩
-  · intro op
-    obtain ⟨r1, r2⟩ := store_refines_map c s op
-    have hse : w.stores[e] = s := (List.getElem?_eq_some_iff.mp hs).2
-    simp [World.step, World.view, he, hse, r1, r2]
-  · intro name v
-    simp only [World.step, World.modReg, World.view, hs, Option.map]
-    rw [regView_add _ h1 _ _ (h4 ▸ he)]
-    simp
-  · intro name
-    simp only [World.step, World.modReg, World.view, hs, Option.map]
-    rw [regView_remove _ h1 _ _ (h4 ▸ he)]
-    simp
+/-- every operation on environment `e` (store operation, load-time or run-time configuration
+    change, registry change) acts on `e`'s value exactly like the specification `EnvSpec.step` -/
+theorem world_step_refines (c : LtCfg → Source → Bool) (w : World) (hw : w.WF) (e : Nat)
+    (he : e < w.stores.length) (op : EOp) :
+    ∃ v, w.flatView e = some v ∧
+      (w.step c (op.at e)).1.flatView e = some (v.step c op).1 ∧
+      (w.step c (op.at e)).2 = (v.step c op).2 :=
+  World.step_local c w hw e he op
 
-example : -- original, clone; the clone changes a filter and a template, the original does not move
-    let c : Source → Bool := fun _ => true
+/-- The behaviour of an environment is a function of its value — (run-time configuration;
+    load-time configuration for future loads; loader; per template: source and load-time
+    configuration at its last load; registries) — and of nothing else: two environments, in the same
+    or in different worlds (original/clone, differently built), that have the same value answer
+    every sequence of further operations identically and end with the same value. -/
+theorem env_history_independent (c : LtCfg → Source → Bool) (w₁ w₂ : World) (h₁ : w₁.WF) (h₂ : w₂.WF)
+    (e₁ e₂ : Nat) (l₁ : e₁ < w₁.stores.length) (l₂ : e₂ < w₂.stores.length)
+    (hv : w₁.flatView e₁ = w₂.flatView e₂) (k : List EOp) :
+    w₁.resultsAt c e₁ k = w₂.resultsAt c e₂ k ∧
+    (w₁.runAt c e₁ k).flatView e₁ = (w₂.runAt c e₂ k).flatView e₂ := by
+  obtain ⟨v, hv1⟩ : ∃ v, w₁.flatView e₁ = some v := ⟨_, World.flatView_some w₁ e₁ l₁⟩
+  obtain ⟨a1, a2⟩ := World.run_local c k w₁ h₁ e₁ l₁ v hv1
+  obtain ⟨b1, b2⟩ := World.run_local c k w₂ h₂ e₂ l₂ v (hv ▸ hv1)
+  exact ⟨a2.trans b2.symm, a1.trans b1.symm⟩
+
+example : -- original, clone; the clone changes a filter, a template and both configurations, the
+          -- original does not move
+    let c : LtCfg → Source → Bool := fun _ _ => true
     let w := (World.init [(1, 9)] [(1, 9)] [(1, 9)]).run c [.store 0 (.addOwned 0 3), .clone 0]
-    let w' := w.run c [.regAdd .filter 1 0 5, .store 1 (.remove 0), .regRemove .global 1 1]
-    (w'.view 0).map (fun v => (v.store.explicit 0, v.filters 0, v.globals 1)) = some (some 3, none, some 9) ∧
-    (w'.view 1).map (fun v => (v.store.explicit 0, v.filters 0, v.globals 1)) = some (none, some 5, none) := by
+    let w' := w.run c [.regAdd .filter 1 0 5, .store 1 (.setCfg cfgB), .store 1 (.addOwned 0 3),
+                       .setRt 1 { RtCfg.default with undefined := 1 }, .regRemove .global 1 1]
+    (w'.view 0).map (fun v => (v.store.explicit 0, v.rt.undefined, v.filters 0, v.globals 1))
+        = some (some (3, cfgA), 0, none, some 9) ∧
+    (w'.view 1).map (fun v => (v.store.explicit 0, v.rt.undefined, v.filters 0, v.globals 1))
+        = some (some (3, cfgB), 1, some 5, none) := by
   decide
 
 /-! ## state identity: a macro belongs to the render that created it -/
@@ -271,5 +346,22 @@ theorem per_thread_counter_collides :
       (perThreadRun [] ts)[p]? = some (tp, ip) ∧ (perThreadRun [] ts)[q]? = some (tq, iq) ∧
       macroAccepted iq ip = true :=
   ⟨[0, 1], 0, 1, 0, 0, 1, 0, by decide⟩
+
+/-! ## tie to the source text -/
+
+/-- The structural facts of `loader.rs`, `environment.rs`, `template.rs`, `lexer.rs` and
+    `vm/state.rs` that the model transcribes, as regenerated from `/repo` for this run, are the ones
+    the model was written against: the classification of every `Environment::set_*` into load-time /
+    loader / run-time, the fields of the load-time configuration, the event order in both
+    `insert_cow` arms (compile, evict, insert — no early return, no look at the stored entry), the
+    lookup order of `get`, the tiers `remove`/`clear` touch, the process-wide `STATE_ID`, and the
+    derived `Clone`s. -/
+theorem source_tables_match_model :
+    MJ.Gen.c15Setters = modelSetters ∧
+    MJ.Gen.c15TemplateConfig = modelTemplateConfig ∧ MJ.Gen.c15WhitespaceConfig = modelWhitespaceConfig ∧
+    MJ.Gen.c15InsertArms = modelInsertArms ∧ MJ.Gen.c15GetOrder = modelGetOrder ∧
+    MJ.Gen.c15RemoveTiers = modelRemoveTiers ∧ MJ.Gen.c15ClearTiers = modelClearTiers ∧
+    MJ.Gen.c15StateId = modelStateId ∧ MJ.Gen.c15CloneDerives = modelCloneDerives := by
+  decide
 
 end MJ.C15
